@@ -558,7 +558,6 @@ impl<R: BufRead> Dearmor<R> {
             read_from_buf(&mut b, "armor footer", self.max_buffer_limit, footer_parser)?;
         if let Some(ref header_typ) = self.typ {
             if header_typ != &footer_typ {
-                self.current_part = Part::Done(b);
                 bail!(
                     "armor ascii footer does not match header: {:?} != {:?}",
                     self.typ,
@@ -567,12 +566,14 @@ impl<R: BufRead> Dearmor<R> {
             }
         }
         self.checksum = checksum;
-        self.current_part = Part::Done(b);
 
         // validate checksum if we calculated one and the armor footer had one
         if matches!(self.crc24_status(), ArmorCrc24Status::CheckedInvalid { .. }) {
             bail!("invalid crc24 checksum");
         }
+
+        // only a footer that passed all checks ends the stream cleanly
+        self.current_part = Part::Done(b);
 
         Ok(())
     }
@@ -643,7 +644,8 @@ impl<R: BufRead> Read for Dearmor<R> {
                     self.current_part = Part::Done(b);
                     return Ok(read);
                 }
-                Part::Temp => panic!("invalid state"),
+                // A previous call failed and left the placeholder behind: keep failing.
+                Part::Temp => return Err(io::Error::other("Dearmor errored")),
             }
         }
     }
